@@ -1326,7 +1326,7 @@ impl ASN1Value {
                 if let ASN1Value::ElsewhereDeclaredValue { identifier, .. } = &**value {
                     if let Some((_, tld)) = tlds
                         .iter()
-                        .find(|(_, tld)| tld.has_enum_value(None, identifier))
+                        .find(|(_, tld)| tld.has_enum_value(type_name, identifier))
                     {
                         **value = ASN1Value::EnumeratedValue {
                             enumerated: tld.name().clone(),
@@ -1339,11 +1339,11 @@ impl ASN1Value {
             (ASN1Type::Enumerated(_), ASN1Value::ElsewhereDeclaredValue { identifier, .. })
                 if tlds
                     .iter()
-                    .any(|(_, tld)| tld.has_enum_value(None, identifier)) =>
+                    .any(|(_, tld)| tld.has_enum_value(type_name, identifier)) =>
             {
                 if let Some((_, tld)) = tlds
                     .iter()
-                    .find(|(_, tld)| tld.has_enum_value(None, identifier))
+                    .find(|(_, tld)| tld.has_enum_value(type_name, identifier))
                 {
                     *self = ASN1Value::EnumeratedValue {
                         enumerated: tld.name().clone(),
